@@ -258,6 +258,26 @@ def check(ctx, replay=None):
                               "step %d: the mortality action was stopped by the library's guard (runtime_error: deaths of a cohort above the "
                               "infected present) although every configured mortality rate is within [0, 1]" % e[0], blocks[k])
                 break
+    if pid == "C16" and diffs:
+        # a complete competency table has a row for every host combination, whatever its score:
+        # a lookup that ends in out_of_range while dispersers are generated (the model, with the
+        # same table, finds the row) is a lookup not returning the score of the table
+        mtrace = parse_trace(model_p)
+        for k in sorted(trace):
+            e, mt_ = trace[k]["err"], mtrace.get(k)
+            if not (e and isinstance(e[0], int) and e[1] == "out_of_range" and mt_ is not None and k < len(blocks)):
+                continue
+            if mt_["err"] and mt_["err"][1] != "tape_mismatch":
+                continue
+            pc = parse_case(blocks[k])
+            rows_ = [t for t in pc["multi"] if t[0] == "comprow"]
+            nh = int(pc["kv"]["hosts"][0])
+            got = [s_[1] for s_ in trace[k]["snaps"] if s_[0] == e[0]]
+            if pc["entry"] == "pools" and len(rows_) == 2 ** nh and len(set(t[1] for t in rows_)) == 2 ** nh and "generate" not in got:
+                ctx.violation("C16.competency.complete_table_lookup",
+                              "step %d: generating dispersers ended in out_of_range although the complete competency table has a row for "
+                              "every host combination (rows: %s)" % (e[0], " ".join("%s=%s" % (t[1], t[2]) for t in rows_)), blocks[k])
+                break
     stats = mon.run_monitor(pid, ctx, blocks, trace)
     if pid == "C12":
         stats["weather_from_distribution"] = weather_part(ctx, replay)
